@@ -184,9 +184,92 @@ def _is_not_ascii(c, neg=False):
     return False
 
 
+def pad_exec(ctx):
+    """add_padding folded as a whole for every combination of (symbol capacity, codewords already written, current mode) of a
+    small grid plus one full run over the largest symbol (every pad position 2..1558): what it appends must be the unlatch (iff
+    the encoder is not in ASCII mode and room is left), the pad codeword 129, and 253-state randomised pads for their positions"""
+    r = "PAD-PATH"
+    f = ctx.facts()
+    ap = _fn(f, "GenericDataEncoder::add_padding", r)
+    b = f.thir[ap]
+    pn = [p_["pat"]["name"] for p_ in b["params"] if p_.get("pat", {}).get("k") == "Bind"]
+    need(len(pn) == 2, r, ap, "(parameters self, size)")
+    adt = f.adts.get("encodation::GenericDataEncoder")
+    need(adt, r, "encodation::GenericDataEncoder")
+    fields = [x["name"] for x in adt["variants"][0]["fieldtys"]]
+    need("codewords" in fields and "encodation" in fields, r, ap, "(fields codewords, encodation)")
+    bad = None
+    n_cases = 0
+
+    def run(cap, have, mode):
+        me = {"__adt__": "encodation::GenericDataEncoder", "__variant__": "GenericDataEncoder"}
+        for i, nm in enumerate(fields):
+            v = T.Token(nm)
+            if nm == "codewords":
+                v = [65] * have
+            if nm == "encodation":
+                v = {"__adt__": "encodation::encodation_type::EncodationType", "__variant__": mode}
+            me[nm] = v
+            me["#%d" % i] = v
+
+        def on_call(folder, c):
+            cc = T.canon(T.callee_of(c))
+            if cc.endswith("SymbolSize::num_data_codewords"):
+                return cap
+            return NotImplemented
+        fo = T.Folder(f, env={pn[0]: me, pn[1]: T.Token("size")}, on_call=on_call, effects=True, local_calls=3)
+        fo.max_iter = 4000
+        fo.run(b["body"])
+        cw = me["codewords"]
+        return list(cw[have:]), me["encodation"].get("__variant__") if isinstance(me["encodation"], dict) else me["encodation"]
+
+    def want(cap, have, mode):
+        out = []
+        room = cap - have
+        if room == 0:
+            return out, mode
+        if mode != "Ascii":
+            out.append(254)
+            room -= 1
+        if room > 0:
+            out.append(129)
+            room -= 1
+        for _ in range(room):
+            pos = have + len(out) + 1
+            t = 129 + ((149 * pos) % 253 + 1)
+            out.append(t if t <= 254 else t - 254)
+        return out, "Ascii"
+    try:
+        grid = [(cap, have, mode) for cap in (3, 5, 8, 12) for have in range(0, cap + 1) for mode in ("Ascii", "C40", "Base256")]
+        grid += [(1558, 0, "Ascii"), (1558, 1, "Edifact"), (1558, 1557, "Text"), (1558, 1556, "X12")]
+        for cap, have, mode in grid:
+            got = run(cap, have, mode)
+            exp = want(cap, have, mode)
+            n_cases += 1
+            if got[0] != exp[0] and bad is None:
+                k = next((i for i in range(min(len(got[0]), len(exp[0]))) if got[0][i] != exp[0][i]), min(len(got[0]), len(exp[0])))
+                bad = "symbol of %d data codewords, %d written, mode %s: appends %d codewords (first difference at index %d: %r vs %r)" % (
+                    cap, have, mode, len(got[0]), k, got[0][k:k + 3], exp[0][k:k + 3])
+            if exp[0] and mode != "Ascii" and got[1] != "Ascii" and bad is None:
+                bad = "symbol of %d data codewords, %d written, mode %s: the mode is %s after padding, not Ascii" % (cap, have, mode, got[1])
+    except T.Trap as ex:
+        bad = "add_padding can trap: %s" % ex
+    except T.Undecidable as ex:
+        return None, "add_padding does not fold (%s)" % ex
+    return bad is None, bad or "%d (capacity, written, mode) combinations incl. every pad position 2..1558" % n_cases
+
+
 def pad_path(ctx):
     r = "PAD-PATH"
     f = ctx.facts()
+    ok_exec, det_exec = pad_exec(ctx)
+    if ok_exec is not None:
+        # decided by folding the whole function: independent of how the unlatch / first pad / pad loop are spelled
+        obs = [Ob(r, k, bool(ok_exec), what + ": " + str(det_exec), site=T.span_str(f.thir[_fn(f, "GenericDataEncoder::add_padding", r)]["span"]))
+               for k, what in (("size_left", "padding fills exactly the chosen symbol"), ("unlatch", "the unlatch 254 is pushed exactly when the encoder is not in ASCII mode and room is left"),
+                               ("first-pad", "the first pad is the plain codeword 129, pushed iff space is left"), ("order", "unlatch comes before the first pad"),
+                               ("pad-loop", "exactly the remaining positions get further pads"), ("pad-253", "each further pad is 129 randomised with the 253-state algorithm for its 1-based position"))]
+        return obs
     obs = []
     ap = _fn(f, "GenericDataEncoder::add_padding", r)
     b = f.thir[ap]
